@@ -11,6 +11,7 @@ import gen_kernels
 
 PID = 'C03'
 PROP_V = 'Props/C03.v'
+CORR_V = ('Corr/CorrC03.v',)
 HEADER = 'Require Import V.Corr.CorrC03.\n'
 
 
